@@ -9,10 +9,10 @@
    real scheduler; that part of C13 is sampled by the stress harness (harness/vdrv_threads.c) and labelled as
    such in the evidence.
 
-   baseline = the protocol of /repo HEAD (18c25b5: fixes 1b1aba3, 97f9e93, 29b4a13, 86ddb5d, 74169c1 applied);
+   baseline = the protocol of /repo HEAD (600ddcc: fixes 1b1aba3, 97f9e93, 29b4a13, 86ddb5d, 74169c1, 4891477, 633e5d0, 600ddcc applied);
    *_before_fix_refuted = regression witnesses for the protocol before those commits;
-   *_refuted without "before_fix" = OPEN findings of HEAD (F13 threads never reclaimed, F11 cursor burn-in; model only:
-   palette lock inversion, cursor change does not wake). *)
+   *_refuted without "before_fix" = OPEN findings of HEAD (F11 cursor burn-in; model only: palette lock inversion, cursor change
+   does not wake). *)
 From Coq Require Import List Bool Arith.
 From LV Require Import Session.ThreadsModel Session.ThreadsProofs.
 Import ListNotations.
@@ -147,19 +147,19 @@ Proof. exact iterator_walk_needs_the_wait. Qed.
 Theorem C13_no_use_after_free_iter_before_fix_refuted : it_uaf (run it_st (it_step false) it_witness it_init) = true.
 Proof. exact iterator_use_after_free. Qed.
 
-(* --- threads reclaimed: OPEN, finding C13-F13.  HEAD's protocol, ONE client: the connection ends by itself before
-   rfbShutdownServer looks - the thread has exited and nobody ever joins or detaches it *)
-Theorem C13_client_thread_reclaimed_refuted :
+(* --- threads reclaimed.  Regression witness, protocol BEFORE 600ddcc - finding C13-F13 (fixed), ONE client: the connection ends by
+   itself before rfbShutdownServer looks - the thread has exited and nobody ever joins or detaches it *)
+Theorem C13_client_thread_reclaimed_before_fix_refuted :
   let s := run rc_st (rc_step false false) rc_leak_witness rc_init in
   rc_final s = true /\ rc_exited s = true /\ rc_reclaimed s = 0.
 Proof. exact client_thread_never_reclaimed. Qed.
 
-(* with notes/fix_C13_6.diff (NOT in /repo: rfbShutdownServer claims the join in the client record while it holds its
-   reference; the client thread reads the claim after it has unlinked the record and detaches itself when unclaimed):
+(* HEAD (600ddcc = notes/fix_C13_6.diff: rfbShutdownServer claims the join in the client record while it holds its
+   reference; the client thread reads the claim after it has unlinked the record and detaches itself when unclaimed), ONE client:
    for EVERY schedule - the connection ends at any moment relative to the shutdown - the thread is never joined after it
    detached itself, the freed record is never touched by the application, the thread is reclaimed at most once and exactly
    once when both are through, nobody gets stuck, and the round-robin continuation gets both through *)
-Theorem C13_client_thread_reclaimed_exactly_once_fixed_one_client : forall sched,
+Theorem C13_client_thread_reclaimed_exactly_once_one_client : forall sched,
   let s := run rc_st (rc_step true false) sched rc_init in
   rc_bad s = false /\ rc_reclaimed s <= 1 /\ (rc_final s = true -> rc_reclaimed s = 1) /\
   (rc_final s = true \/ exists t, t < 2 /\ enabled rc_st (rc_step true false) t s = true) /\
@@ -177,22 +177,23 @@ Theorem C13_claim_must_be_read_after_the_unlink :
 Proof. exact claim_must_be_read_after_the_unlink. Qed.
 
 (* the COUNTER behind the correspondence run's prediction (bookkeeping, true by construction, justified by the two theorems above;
-   the fact itself is measured): after n connect/disconnect cycles HEAD has n never-reclaimed threads and rfbShutdownServer
-   does not reclaim them; with the self-detach none is left *)
+   the fact itself is measured): after n connect/disconnect cycles the protocol before 600ddcc has n never-reclaimed threads and
+   rfbShutdownServer does not reclaim them; HEAD's (self-detach) leaves none *)
 Theorem C13_threads_reclaimed_count_by_construction : forall n,
   th_zombie (th_run false (th_cycles n)) = n /\ th_zombie (th_run false (th_cycles n ++ [ThShutdown])) = n /\
   th_zombie (th_run true (th_cycles n ++ [ThShutdown])) = 0.
 Proof. intros n. split; [apply threads_never_joined | split; [apply shutdown_does_not_reclaim_them | apply threads_reclaimed_when_detached]]. Qed.
 
-(* --- rfbShutdownServer against the listener thread: OPEN, finding C13-N6.  HEAD closes and joins the clients BEFORE it stops the
-   listener: a client the listener has linked but not yet given a thread gets a pthread_join on a thread that does not exist,
-   and its thread is created after the shutdown has passed it *)
-Theorem C13_shutdown_joins_unstarted_thread_refuted :
+(* --- rfbShutdownServer against the listener thread.  Regression witness, order BEFORE 633e5d0 - finding C13-N6 (fixed): the clients
+   were closed and joined BEFORE the listener was stopped: a client the listener has linked but not yet given a thread gets a
+   pthread_join on a thread that does not exist, and its thread is created after the shutdown has passed it *)
+Theorem C13_shutdown_joins_unstarted_thread_before_fix_refuted :
   let s := run ls_st (ls_step false) ls_witness ls_init in ls_badjoin s = true /\ ls_late s = true.
 Proof. exact shutdown_joins_unstarted_thread. Qed.
 
-(* with notes/fix_C13_7.diff (NOT in /repo: listener stopped and joined first), ONE incoming connection at any moment: *)
-Theorem C13_shutdown_joins_only_started_threads_fixed : forall sched,
+(* HEAD (633e5d0 = notes/fix_C13_7.diff: listener stopped and joined first), ONE incoming connection at any moment: every client
+   the loop finds has its thread, no client thread is created after the loop, nobody stuck, everybody finishes *)
+Theorem C13_shutdown_joins_only_started_threads_one_connection : forall sched,
   let s := run ls_st (ls_step true) sched ls_init in
   ls_badjoin s = false /\ ls_late s = false /\
   (ls_final s = true \/ exists t, t < 2 /\ enabled ls_st (ls_step true) t s = true) /\
@@ -203,17 +204,17 @@ Example C13_shutdown_listener_nonvacuous :
   let s := run ls_st (ls_step true) [1; 0; 1; 1; 0; 0] ls_init in ls_final s = true /\ ls_listed s = true /\ ls_thread s = true /\ ls_ok s = true.
 Proof. exact shutdown_listener_nonvacuous. Qed.
 
-(* --- rfbCloseClient against the handshake: OPEN, finding C13-N7.  The handshake's "cl->state = next" is a plain store that can
-   overwrite the RFB_SHUTDOWN set by rfbCloseClient from another thread: the close is lost, the client's thread waits for the
-   next message, rfbShutdownServer waits in pthread_join - nobody can move *)
-Theorem C13_close_during_handshake_lost_refuted :
+(* --- rfbCloseClient against the handshake.  Regression witness, code BEFORE 4891477 - finding C13-N7 (fixed): the handshake's
+   "cl->state = next" was a plain store that could overwrite the RFB_SHUTDOWN set by rfbCloseClient from another thread: the close
+   is lost, the client's thread waits for the next message, rfbShutdownServer waits in pthread_join - nobody can move *)
+Theorem C13_close_during_handshake_lost_before_fix_refuted :
   let s := run hs_st (hs_step false) hs_witness hs_init in
   hs_state s = 3 /\ hs_final s = false /\ forall t, enabled hs_st (hs_step false) t s = false.
 Proof. exact close_during_handshake_lost. Qed.
 
-(* with notes/fix_C13_8.diff (NOT in /repo: the handshake stores its next state under updateMutex and only if the state is not
+(* HEAD (4891477 = notes/fix_C13_8.diff: the handshake stores its next state under updateMutex and only if the state is not
    RFB_SHUTDOWN), ONE client, the close at any moment of the three handshake steps: never stuck, the shutdown completes *)
-Theorem C13_close_during_handshake_fixed_one_client : forall sched,
+Theorem C13_close_during_handshake_not_lost_one_client : forall sched,
   let s := run hs_st (hs_step true) sched hs_init in
   (hs_final s = true \/ exists t, t < 2 /\ enabled hs_st (hs_step true) t s = true) /\
   hs_final (run hs_st (hs_step true) hs_finishing s) = true.
